@@ -28,7 +28,7 @@ _flags.int_format_placeholder = True
 ASSUMPTIONS = [
     'system level: deterministic clock/randomness/loop (vf/detenv.py, vf/detloop.py); FIFO order-preserving LocalLink; one LE connection, central = side 0',
     'cut points: after each of the first k callbacks of the event loop since the procedure started (k up to the length of the undisturbed procedure, so "after completion" is included)',
-    'transport loss: nothing is delivered to or from the local host after the loss; operations *started* after the loss (k = 0, or HCI commands issued by later continuations) are outside; only the local side is examined',
+    'transport loss: nothing is delivered to or from the local host after the loss; operations *started* after the loss (k = 0) are outside; only the local side is examined',
     'a waiter that ends through its own time-out (GATT 30 s) counts as ended: the virtual clock runs until nothing is scheduled',
     'BR/EDR system-level procedures (RFCOMM/SDP/AVDTP over two Devices) are outside; their L2CAP substrate is cut at the wire level here and RFCOMM link loss is in C09',
 ]
@@ -132,12 +132,13 @@ PROCS = {
     'coc_disconnect': (3, 0, lambda w: [w.channel.disconnect()]),
     'coc_write_drain': (3, 0, lambda w: [_write_drain(w)]),
     'rssi': (0, 0, lambda w: [w.conn.get_rssi()]),
+    'two_hci_commands': (0, 0, lambda w: [w.conn.get_rssi(), w.devs[0].host.send_command(hci.HCI_Read_BD_ADDR_Command())]),
     'conn_update': (0, 0, lambda w: [w.conn.update_parameters(10, 20, 0, 1000)]),
     'encrypt_without_key': (0, 0, lambda w: [w.conn.encrypt()]),
 }
 # an upper bound of the undisturbed length of each procedure in loop callbacks (checked: a longer procedure is reported)
 KMAX = {'discover_all': 96, 'read': 14, 'write': 14, 'write_cmd_burst': 24, 'two_requests': 26, 'subscribe': 22, 'indicate': 16, 'notify': 8, 'mtu': 12, 'pair': 76,
-        'peer_pair': 76, 'paired_idle': 1, 'coc_connect': 12, 'coc_connect_refused': 12, 'coc_disconnect': 12, 'coc_write_drain': 130, 'rssi': 6, 'conn_update': 6, 'encrypt_without_key': 4}
+        'peer_pair': 76, 'paired_idle': 1, 'coc_connect': 12, 'coc_connect_refused': 12, 'coc_disconnect': 12, 'coc_write_drain': 130, 'rssi': 6, 'two_hci_commands': 10, 'conn_update': 6, 'encrypt_without_key': 4}
 CUTS = ['local-disconnect', 'peer-disconnect', 'link-loss', 'transport-lost']
 
 
@@ -167,7 +168,7 @@ def _leftovers(w, cutter):
         q = h.le_acl_packet_queue
         if q is not None and (q.pending or q._connection_state or q._in_flight):
             out.append(f'D{i} le_acl_packet_queue pending={q.pending} in_flight={q._in_flight}')
-        if cutter != 3 and h.pending_command is not None:
+        if h.pending_command is not None:
             out.append(f'D{i} host.pending_command')
     return out
 
@@ -239,7 +240,7 @@ def _canary_client_waiter_kept():
          grid={'proc': list(PROCS), 'cutter': [0, 1, 2, 3]},
          canaries=[('data-queue-never-flushed', _canary_queue_not_flushed), ('connecting-coc-not-aborted', _canary_coc_connecting_not_aborted),
                    ('smp-session-never-removed', _canary_session_kept)],
-         bounds='19 procedures (GATT discover/read/write/subscribe/indicate/notify/MTU, pairing from either side, LE CoC connect/refused/disconnect/drain, RSSI, parameter update, encrypt) x 4 cuts (local disconnect, peer disconnect, link loss, transport loss) x every callback boundary k of the procedure: all awaited calls end; connection tables of host, device and controller, GATT server registries, SMP sessions, L2CAP channel and request tables, ACL queue are empty')
+         bounds='20 procedures (GATT discover/read/write/subscribe/indicate/notify/MTU, pairing from either side, LE CoC connect/refused/disconnect/drain, RSSI, parameter update, encrypt) x 4 cuts (local disconnect, peer disconnect, link loss, transport loss) x every callback boundary k of the procedure: all awaited calls end; connection tables of host, device and controller, GATT server registries, SMP sessions, L2CAP channel and request tables, ACL queue are empty')
 def system_cut(k: int, proc: str, cutter: int) -> bool:
     k = C(k, 0, 130)
     if k > KMAX[proc]:
